@@ -42,7 +42,7 @@ func newAggWorld() *AggWorld {
 	extra := sdk.NewCoins(sdk.NewInt64Coin("acoin", aggStart), sdk.NewInt64Coin("bcoin", aggStart))
 	c := NewChain(ChainOpts{ChainID: "teleport_9000-10", Accts: []Acct{user}, Coins: map[string]sdk.Coins{user.Name: extra}})
 	w := &AggWorld{C: c, Coins: []string{"acoin", "bcoin"}, Addr: map[string]common.Address{}, Name: map[common.Address]string{}, Mods: []string{"m1", "m2"}}
-	for _, n := range []string{"x1", "x2"} {
+	for _, n := range []string{"x1", "x2", "x3"} {
 		w.reg(n, w.deploy(erc20contracts.ERC20MinterBurnerDecimalsContract.Bin, mustPack(erc20contracts.ERC20MinterBurnerDecimalsContract.ABI, "", "name", "symbol", uint8(18))))
 		r := c.DeliverEth(user, addrp(w.Addr[n]), nil, mustPack(erc20ABI, "mint", user.Eth, big.NewInt(aggStart)))
 		if !r.OK() {
@@ -52,7 +52,7 @@ func newAggWorld() *AggWorld {
 	w.reg("xd", w.deploy(erc20contracts.ERC20MaliciousDelayedContract.Bin, mustPack(erc20contracts.ERC20MaliciousDelayedContract.ABI, "", big.NewInt(aggStart))))
 	w.reg("xm", w.deploy(erc20contracts.ERC20DirectBalanceManipulationContract.Bin, mustPack(erc20contracts.ERC20DirectBalanceManipulationContract.ABI, "", big.NewInt(aggStart))))
 	w.Denoms = append([]string{}, w.Coins...)
-	for _, n := range []string{"x1", "x2", "xd", "xm"} {
+	for _, n := range []string{"x1", "x2", "x3", "xd", "xm"} {
 		w.Denoms = append(w.Denoms, w.voucher(n))
 	}
 	c.Commit()
@@ -162,7 +162,18 @@ func (w *AggWorld) project() M {
 		kb, _ := hex.DecodeString(kv[0])
 		idName[hex.EncodeToString(kb[1:])] = id
 		stored := hex.EncodeToString(kb[1:]) == hex.EncodeToString(p.GetID())
-		pairs = append(pairs, M{"erc20": w.absContract(common.HexToAddress(p.ERC20Address)), "denoms": denoms, "enabled": p.Enabled, "owner": owner, "keyok": stored})
+		// what the registry's public lookups (the ones conversions, toggles and the TokenPair query go through) answer for
+		// this pair's contract address and for each of its denominations
+		lookups := true
+		for _, tok := range append([]string{p.ERC20Address}, p.Denoms...) {
+			if hex.EncodeToString(k.GetTokenPairID(ctx, tok)) != hex.EncodeToString(kb[1:]) {
+				lookups = false
+			}
+			if q, err := k.TokenPair(sdk.WrapSDKContext(ctx), &aggtypes.QueryTokenPairRequest{Token: tok}); err != nil || q.TokenPair.ERC20Address != p.ERC20Address {
+				lookups = false
+			}
+		}
+		pairs = append(pairs, M{"erc20": w.absContract(common.HexToAddress(p.ERC20Address)), "denoms": denoms, "enabled": p.Enabled, "owner": owner, "keyok": stored, "lookups": lookups})
 	}
 	resolve := func(idhex string) []interface{} {
 		if id, ok := idName[idhex]; ok {
@@ -192,7 +203,7 @@ func (w *AggWorld) project() M {
 		}
 	}
 	tbal, tesc, tsup, code := M{}, M{}, M{}, M{}
-	for _, n := range []string{"m1", "m2", "x1", "x2", "xd", "xm"} {
+	for _, n := range []string{"m1", "m2", "x1", "x2", "x3", "xd", "xm"} {
 		a, ok := w.Addr[n]
 		if !ok {
 			tbal[n], tesc[n], tsup[n], code[n] = 0, 0, 0, false
@@ -257,7 +268,7 @@ func driveAggregate(t *testing.T, in, out string, seed int64) {
 				line["res"], line["msg"] = res, clip(msg)
 			case "Toggle":
 				tok := str(st["t"])
-				if _, isC := map[string]bool{"m1": true, "m2": true, "x1": true, "x2": true, "xd": true, "xm": true}[tok]; isC {
+				if _, isC := map[string]bool{"m1": true, "m2": true, "x1": true, "x2": true, "x3": true, "xd": true, "xm": true}[tok]; isC {
 					tok = w.contractAddr(tok).Hex()
 				} else {
 					tok = w.realDenom(tok)
